@@ -1,6 +1,7 @@
 #!/usr/bin/env python
 """Module containing simulation result classes."""
 
+import copy
 import os.path
 from collections.abc import Iterable
 from typing import (Any, Dict, Iterator, List, Optional, Tuple, TypedDict,
@@ -1124,10 +1125,14 @@ class SimulationResults(JsonSerializable):
         results of two simulations for the exact same parameters.
         """
         # If the current SimulationResults object is empty, we basically
-        # copy the Result objects from other
+        # copy the Result objects from other. They must be real copies:
+        # if `self` only kept references to the lists and Result objects
+        # of `other`, any later merge into `self` would modify `other`.
         if len(self) == 0:
             for name in other.get_result_names():
-                self._results[name] = other[name]
+                self._results[name] = [
+                    copy.deepcopy(r) for r in other[name]
+                ]
         # Otherwise, we merge each Result from `self` with the Result from
         # `other`
         else:
